@@ -177,15 +177,15 @@ func (r *DeviceLocal) RemoveRemoteDevice(ski string) {
 
 	r.mux.Lock()
 	delete(r.remoteDevices, ski)
-	remainingDevices := len(r.remoteDevices)
+	// only unsubscribe if we don't have any remote devices left, and do so before
+	// a connection that is being set up right now can be added: its subscription
+	// would be a no-op first and be removed here afterwards
+	if len(r.remoteDevices) == 0 {
+		_ = Events.unsubscribe(api.EventHandlerLevelCore, r)
+	}
 	r.mux.Unlock()
 
 	verifPoint("RemoveRemoteDevice.afterDelete", r)
-
-	// only unsubscribe if we don't have any remote devices left
-	if remainingDevices == 0 {
-		_ = Events.unsubscribe(api.EventHandlerLevelCore, r)
-	}
 
 	remoteDeviceAddress := &model.DeviceAddressType{
 		Device: remoteDevice.Address(),
